@@ -823,6 +823,8 @@ func TestVerifC20(t *testing.T) {
 		for ev := 0; ev < nEv; ev++ {
 			deleted := ev > 0 && r.Chance(1, 12)
 			malformedNow := make([]bool, 5)
+			probes := c20GenProbes(r)
+			var pre [][]c20Layer // per probe, per section: what was delivered BEFORE the event (only if a section is unparsable)
 			if deleted {
 				h.Op("ev 0")
 				h.Tag("ev:deleted")
@@ -864,6 +866,21 @@ func TestVerifC20(t *testing.T) {
 					h.Tag(fmt.Sprintf("sec-%s:%s", c20SecNames[s], []string{"absent", "malformed", "parsed"}[cur[s].state]))
 				}
 				h.Op("end")
+				for s := range malformedNow {
+					if malformedNow[s] && pre == nil {
+						pre = make([][]c20Layer, len(probes))
+						for pr := range probes {
+							var before *slov1alpha1.NodeSLOSpec
+							if !h.Guard(func() { before, _ = rec.getNodeSLOSpec(probes[pr].node, nil) }) && before != nil {
+								fls, _ := c20SectionFlats(before)
+								pre[pr] = make([]c20Layer, 5)
+								for i := range fls {
+									pre[pr][i] = c20LayerOf(fls[i])
+								}
+							}
+						}
+					}
+				}
 				if h.Guard(func() { handler.syncNodeSLOSpecIfChanged(cm) }) {
 					h.Obs("panic sync")
 					fail("C20:panic", "syncConfig panicked")
@@ -871,29 +888,8 @@ func TestVerifC20(t *testing.T) {
 			}
 
 			// ---- probes
-			for pr, np := 0, r.Range(2, 3); pr < np; pr++ {
-				labels := map[int]int{}
-				for k := 1; k <= 3; k++ {
-					if r.Chance(3, 5) {
-						labels[k] = r.Range(1, 2)
-					}
-				}
-				if r.Chance(1, 10) {
-					labels[r.Range(1, 3)] = 3
-				}
-				var kv []int
-				node := &corev1.Node{}
-				node.Name = "n"
-				node.Labels = map[string]string{}
-				for k := 1; k <= 3; k++ {
-					if v, ok := labels[k]; ok {
-						kv = append(kv, k, v)
-						node.Labels[c20LabelKeys[k]] = c20LabelVals[v]
-					}
-				}
-				if len(labels) == 0 && r.Bool() {
-					node.Labels = nil
-				}
+			for pr := range probes {
+				labels, kv, node := probes[pr].labels, probes[pr].kv, probes[pr].node
 				h.Op("node %d %s", len(labels), vIntsI(kv))
 				lkey := vIntsI(kv)
 				var oldSpec *slov1alpha1.NodeSLOSpec
@@ -907,10 +903,7 @@ func TestVerifC20(t *testing.T) {
 					continue
 				}
 				oldSpecs[lkey] = spec
-				delivered := []interface{}{spec.ResourceUsedThresholdWithBE, spec.ResourceQOSStrategy, spec.CPUBurstStrategy,
-					spec.SystemStrategy, spec.HostApplications}
-				isNil := []bool{spec.ResourceUsedThresholdWithBE == nil, spec.ResourceQOSStrategy == nil,
-					spec.CPUBurstStrategy == nil, spec.SystemStrategy == nil, false}
+				flats, isNil := c20SectionFlats(spec)
 				allLayers := false
 				for s := 0; s < 5; s++ {
 					if isNil[s] {
@@ -921,16 +914,7 @@ func TestVerifC20(t *testing.T) {
 						}
 						continue
 					}
-					var fl []c20Entry
-					if s == 4 {
-						if len(spec.HostApplications) == 0 {
-							fl = []c20Entry{{[]int{0}, 0}}
-						} else {
-							fl = c20FlatOfGo(spec.HostApplications)
-						}
-					} else {
-						fl = c20FlatOfGo(delivered[s])
-					}
+					fl := flats[s]
 					for _, e := range fl {
 						h.Obs("o %d %s", s, c20Line(e))
 					}
@@ -939,6 +923,13 @@ func TestVerifC20(t *testing.T) {
 					}
 					// ---- oracle: layering of the raw trees, path by path
 					obs := c20LayerOf(fl)
+					if malformedNow[s] && pre != nil && pre[pr] != nil && !c20LayerEq(obs, pre[pr][s]) {
+						secBroken[s] = true
+						d := c20Diffs(obs, pre[pr][s])[0]
+						fail("C20:malformed-not-kept:"+c20SecNames[s], "unparsable section did not keep the previously effective settings: section %s field %s: %s [expected = before the event] (event %d, labels %v)",
+							c20SecNames[s], c20PathNames(d.p), d.what, ev, node.Labels)
+						continue
+					}
 					g := good[s]
 					matching := []int{}
 					if !g.absent {
@@ -999,8 +990,6 @@ func TestVerifC20(t *testing.T) {
 					}
 					where := whereOf(difs[0])
 					switch {
-					case malformedNow[s]:
-						fail("C20:malformed-not-kept:"+c20SecNames[s], "unparsable section did not keep the previous settings; %s", where)
 					case g.absent:
 						fail("C20:absent-not-default:"+c20SecNames[s], "absent section is not the built-in default; %s", where)
 					default:
@@ -1039,6 +1028,61 @@ func TestVerifC20(t *testing.T) {
 		"0-3 node entries with nil/invalid/empty/matchLabels/matchExpressions selectors over 3 label keys, degenerate null/\"\"/[]/{}/unknown-key spellings, ConfigMap deletion) " +
 		"on one real SLOCfgHandlerForConfigMapEvent, 2-3 getNodeSLOSpec probes (random label sets, with/without old spec) after every event; " +
 		"non-trivial = some probe where a matching node entry, the cluster strategy and the default all set fields; distinct by op lines")
+}
+
+type c20Probe struct {
+	labels map[int]int
+	kv     []int
+	node   *corev1.Node
+}
+
+func c20GenProbes(r *vRand) []c20Probe {
+	ps := make([]c20Probe, r.Range(2, 3))
+	for pr := range ps {
+		labels := map[int]int{}
+		for k := 1; k <= 3; k++ {
+			if r.Chance(3, 5) {
+				labels[k] = r.Range(1, 2)
+			}
+		}
+		if r.Chance(1, 10) {
+			labels[r.Range(1, 3)] = 3
+		}
+		var kv []int
+		node := &corev1.Node{}
+		node.Name = "n"
+		node.Labels = map[string]string{}
+		for k := 1; k <= 3; k++ {
+			if v, ok := labels[k]; ok {
+				kv = append(kv, k, v)
+				node.Labels[c20LabelKeys[k]] = c20LabelVals[v]
+			}
+		}
+		if len(labels) == 0 && r.Bool() {
+			node.Labels = nil
+		}
+		ps[pr] = c20Probe{labels, kv, node}
+	}
+	return ps
+}
+
+// flattened JSON form of the five delivered sections
+func c20SectionFlats(spec *slov1alpha1.NodeSLOSpec) ([][]c20Entry, []bool) {
+	isNil := []bool{spec.ResourceUsedThresholdWithBE == nil, spec.ResourceQOSStrategy == nil,
+		spec.CPUBurstStrategy == nil, spec.SystemStrategy == nil, false}
+	delivered := []interface{}{spec.ResourceUsedThresholdWithBE, spec.ResourceQOSStrategy, spec.CPUBurstStrategy, spec.SystemStrategy}
+	flats := make([][]c20Entry, 5)
+	for s := 0; s < 4; s++ {
+		if !isNil[s] {
+			flats[s] = c20FlatOfGo(delivered[s])
+		}
+	}
+	if len(spec.HostApplications) == 0 {
+		flats[4] = []c20Entry{{[]int{0}, 0}}
+	} else {
+		flats[4] = c20FlatOfGo(spec.HostApplications)
+	}
+	return flats, isNil
 }
 
 func c20Range(n int) []int {
